@@ -20,32 +20,46 @@ func c07Compact(in []byte) (v int64, n int, ok bool) {
 	if len(in) == 0 {
 		return 0, 0, false
 	}
+	// a decoder that tolerates short reads sees the missing bytes as zero: pad
+	pad := func(k int) []byte {
+		if len(in) >= k {
+			return in
+		}
+		p := make([]byte, k)
+		copy(p, in)
+		return p
+	}
+	avail := func(k int) int {
+		if len(in) < k {
+			return len(in)
+		}
+		return k
+	}
 	switch in[0] & 3 {
 	case 0:
 		return int64(in[0] >> 2), 1, true
 	case 1:
-		if len(in) < 2 {
-			return 0, 0, false
-		}
-		return int64(uint16(in[0])|uint16(in[1])<<8) >> 2, 2, true
+		b := pad(2)
+		return int64(uint16(b[0])|uint16(b[1])<<8) >> 2, avail(2), true
 	case 2:
-		if len(in) < 4 {
-			return 0, 0, false
-		}
-		return int64(uint32(in[0])|uint32(in[1])<<8|uint32(in[2])<<16|uint32(in[3])<<24) >> 2, 4, true
+		b := pad(4)
+		return int64(uint32(b[0])|uint32(b[1])<<8|uint32(b[2])<<16|uint32(b[3])<<24) >> 2, avail(4), true
 	}
 	l := int(in[0]>>2) + 4
-	if len(in) < 1+l {
-		return 0, 0, false
-	}
+	b := pad(1 + l)
 	if l > 7 {
-		return c07Huge, 1 + l, true
+		for _, x := range b[8:] {
+			if x != 0 {
+				return c07Huge, avail(1 + l), true
+			}
+		}
+		l = 7
 	}
 	var x int64
 	for i := l - 1; i >= 0; i-- {
-		x = x<<8 | int64(in[1+i])
+		x = x<<8 | int64(b[1+i])
 	}
-	return x, 1 + l, true
+	return x, avail(1 + l), true
 }
 
 func c07Declared(in []byte, depth int) int64 {
